@@ -33,12 +33,15 @@ pub struct Case {
     /// a stale, longer file already sits at the `-o` path before the save (durable state of an earlier run)
     pub stale: bool,
     pub hash_seed: u64,
+    /// the image is named as a PATH that is not a regular file: `/dev/stdin` backed by a pipe the harness feeds (a FIFO, a
+    /// `<(...)` substitution, `gen | fml execute /dev/stdin` look the same to the tool: st_size 0, not seekable)
+    pub dev_stdin_pipe: bool,
 }
 
 impl Case {
     pub fn to_json(&self) -> Value {
         json!({"engine": ENGINE, "property": self.property, "program": self.spec.to_json(), "profile": self.profile.name(), "writer": self.writer,
-               "action": self.action, "via_stdin": self.via_stdin, "plan": self.plan, "save_channel": self.save_channel, "save_plan": self.save_plan, "stale": self.stale, "hash_seed": self.hash_seed})
+               "action": self.action, "via_stdin": self.via_stdin, "plan": self.plan, "save_channel": self.save_channel, "save_plan": self.save_plan, "stale": self.stale, "hash_seed": self.hash_seed, "dev_stdin_pipe": self.dev_stdin_pipe})
     }
     pub fn from_json(v: &Value) -> Option<Case> {
         Some(Case {
@@ -53,6 +56,7 @@ impl Case {
             save_plan: v.get("save_plan").and_then(|x| x.as_str()).unwrap_or("").to_string(),
             stale: v.get("stale").and_then(|x| x.as_bool()).unwrap_or(false),
             hash_seed: v.get("hash_seed")?.as_u64()?,
+            dev_stdin_pipe: v.get("dev_stdin_pipe").and_then(|x| x.as_bool()).unwrap_or(false),
         })
     }
 }
@@ -121,15 +125,20 @@ pub fn check(case: &Case) -> Result<Option<Obs>, (String, String)> {
         }
     }
     // load under the read schedule
-    let args: Vec<&str> = if case.via_stdin { vec![case.action.as_str()] } else { vec![case.action.as_str(), "x.bc"] };
+    let dsp = case.dev_stdin_pipe && !case.via_stdin;
+    let image_bytes = if dsp { std::fs::read(dir.join("x.bc")).unwrap_or_default() } else { Vec::new() };
+    let args: Vec<&str> = if case.via_stdin { vec![case.action.as_str()] } else if dsp { vec![case.action.as_str(), "/dev/stdin"] } else { vec![case.action.as_str(), "x.bc"] };
     // fault-free load of the same image: reference for disassemble, and tells schedule-dependence from plain rejection
-    let mut clean = Child::new(case.profile, &args);
+    // (always from the regular file, so that the special path is compared with the ordinary one)
+    let plain_args: Vec<&str> = if case.via_stdin { vec![case.action.as_str()] } else { vec![case.action.as_str(), "x.bc"] };
+    let mut clean = Child::new(case.profile, &plain_args);
     if case.via_stdin { clean.stdin = In::File("x.bc".into()); }
     clean.shim = Some(ShimCfg { seed: case.hash_seed, ..Default::default() });
     let clean_r = run_child(&dir, &clean);
     children += 1;
     let mut faulty = Child::new(case.profile, &args);
     if case.via_stdin { faulty.stdin = In::File("x.bc".into()); }
+    if dsp { faulty.stdin = In::Pipe(image_bytes.clone()); }
     // call indices relative to the number of read calls the fault-free load made: `$-1` = its last call (the one that reports
     // end-of-file), `$-2` the one before, `$/2` the middle one
     let n_reads = clean_r.trace.lines().filter(|l| l.starts_with(if case.via_stdin { "R i " } else { "R r " })).count();
@@ -162,7 +171,9 @@ pub fn check(case: &Case) -> Result<Option<Obs>, (String, String)> {
     if &r.exit != want_exit || &r.stdout != want_out {
         let schedule = &clean_r.exit == want_exit && (case.action != "execute" || &clean_r.stdout == want_out);
         let at = first_difference(&r.stdout, want_out).unwrap_or(0);
-        let oracle = if schedule && !case.plan.is_empty() {
+        let oracle = if schedule && dsp && case.plan.is_empty() {
+            format!("{}6:load_depends_on_the_kind_of_file_behind_the_path", tag)
+        } else if schedule && !case.plan.is_empty() {
             format!("{}6:load_depends_on_delivery_schedule", tag)
         } else if case.action == "execute" {
             format!("{}5:behaviour_differs_after_cycle", tag)
@@ -170,7 +181,7 @@ pub fn check(case: &Case) -> Result<Option<Obs>, (String, String)> {
             format!("{}9:disassemble_rejects_or_differs", tag)
         };
         return Err((oracle, format!("`fml {}{}` on the {}-written image with plan `{}`: {} with {} bytes of stdout; expected {} with {} bytes; first difference at {}",
-            case.action, if case.via_stdin { " < x.bc" } else { " x.bc" }, case.writer, case.plan, r.exit.show(), r.stdout.len(), want_exit.show(), want_out.len(), at)));
+            case.action, if case.via_stdin { " < x.bc" } else if dsp { " /dev/stdin (a pipe)" } else { " x.bc" }, case.writer, case.plan, r.exit.show(), r.stdout.len(), want_exit.show(), want_out.len(), at)));
     }
     Ok(Some(Obs { children, faults_fired: fired, hard_fired: 0 }))
 }
@@ -225,6 +236,7 @@ fn minimise(case: &Case, oracle: &str) -> Case {
     if best.stale { let mut c = best.clone(); c.stale = false; if still(&c) { best = c; } }
     if best.save_channel != "-o FILE" { let mut c = best.clone(); c.save_channel = "-o FILE".into(); if still(&c) { best = c; } }
     if best.via_stdin { let mut c = best.clone(); c.via_stdin = false; if still(&c) { best = c; } }
+    if best.dev_stdin_pipe { let mut c = best.clone(); c.dev_stdin_pipe = false; if still(&c) { best = c; } }
     if let ProgSpec::Stmts(stmts) = &best.spec {
         let mut stmts = stmts.clone();
         let mut j = stmts.len();
@@ -282,8 +294,10 @@ pub fn run_layer_b(property: &str, seed: u64, tier: &str, ev: &mut Evidence) -> 
             save_plan: String::new(),
             stale: rng.below(4) == 0,
             hash_seed: rng.next_u64(),
+            dev_stdin_pipe: false,
         };
         let mut case = case;
+        if !case.via_stdin && rng.below(10) == 0 { case.dev_stdin_pipe = true; if case.plan.contains('$') || case.plan.contains(":x:") || case.plan.contains(":y:") { case.plan = String::new(); } }
         if rng.below(3) == 0 {
             let c = if case.save_channel == "-o FILE" { 'f' } else { 'o' };
             case.save_plan = match rng.below(3) { 0 => format!("{}:*:l:{}", c, rng.pick(&[1u32, 2, 3, 7, 64, 1023])), 1 => format!("{}:{}:s:{}", c, rng.below(3), 1 + rng.below(4)), _ => format!("{}:{}:e:0", c, rng.below(3)) };
